@@ -119,3 +119,29 @@ func H12b() {
 	ti := Indices(vBytes("ti", q))
 	h12Body(pw, ti)
 }
+
+// H12c: long concrete strings at the sizes where a table, a length byte or a
+// machine word could run out (63..65 and 255..257 characters, pure ASCII and
+// with one two-byte character in front) x short indices whose bytes range over
+// the same boundary values.
+func H12c() {
+	n := []int{63, 64, 65, 255, 256, 257}[vChoice("chars", 6)]
+	pw := strings.Repeat("a", n)
+	if vChoice("wide", 2) == 1 {
+		pw = "é" + pw[1:]
+	}
+	q := vLen("tilen", 0, vParam("q", 3))
+	vals := []byte{0, 1, 2, 3, 62, 63, 64, 65, 200, 254, 255}
+	ti := make(Indices, q)
+	for i := range ti {
+		if i == 0 {
+			ti[i] = vals[vChoice("kind", 5)] // 0..3 and an unknown kind
+			if ti[i] == 62 {
+				ti[i] = 200
+			}
+			continue
+		}
+		ti[i] = vals[vChoice("ti"+vDigits[i], len(vals))]
+	}
+	h12Body(pw, ti)
+}
